@@ -122,12 +122,9 @@ template <class G> void recip(G &g, long i, long j, bool f, std::false_type) { g
 template <class G> void recipM(G &g, long i, long j, unsigned k, bool f, std::true_type) { g.addReciprocalMultiedge(i, j, k, f); }
 template <class G> void recipM(G &g, long i, long j, unsigned k, bool f, std::false_type) { g.addMultiedge(i, j, k, f); }
 
-template <class G, class IsDir> void runMulti(size_t n0, const std::vector<std::string> &ops) {
-    G g(n0);
-    for (auto &op : ops) {
+template <class G, class IsDir> Z applyMulti(G &g, const std::string &op) {
         std::istringstream is(op); std::string k; is >> k; long i = 0, j = 0, m = 0, f = 0;
-        if (k == "Q") { is >> i; Segs o = observe(g); o.insert(o.begin(), Obs{0}); o.push_back(query(g, (unsigned)i)); emit("I", o); continue; }
-        Z r = guard([&]() -> Z {
+        return guard([&]() -> Z {
             if (k == "A") { is >> i >> j >> f; g.addEdge(i, j, (bool)f); }
             else if (k == "AR") { is >> i >> j >> f; recip(g, i, j, (bool)f, IsDir()); }
             else if (k == "MA") { is >> i >> j >> m >> f; g.addMultiedge(i, j, (EdgeMultiplicity)m, (bool)f); }
@@ -142,15 +139,12 @@ template <class G, class IsDir> void runMulti(size_t n0, const std::vector<std::
             else if (k == "DD") g.removeDuplicateEdges();
             else throw std::logic_error("unknown op " + k);
             return 0; });
-        Segs o = observe(g); o.insert(o.begin(), Obs{r}); o.push_back(Obs{}); emit("I", o);
-    }
 }
-template <class G> void runWeighted(size_t n0, const std::vector<std::string> &ops) {
-    G g(n0);
-    for (auto &op : ops) {
+Z applyOp(DirectedMultigraph &g, const std::string &op) { return applyMulti<DirectedMultigraph, std::true_type>(g, op); }
+Z applyOp(UndirectedMultigraph &g, const std::string &op) { return applyMulti<UndirectedMultigraph, std::false_type>(g, op); }
+template <class G> Z applyWeighted(G &g, const std::string &op) {
         std::istringstream is(op); std::string k; is >> k; long i = 0, j = 0, w = 0, f = 0;
-        if (k == "Q") { is >> i; Segs o = observe(g); o.insert(o.begin(), Obs{0}); o.push_back(query(g, (unsigned)i)); emit("I", o); continue; }
-        Z r = guard([&]() -> Z {
+        return guard([&]() -> Z {
             if (k == "WA") { is >> i >> j >> w >> f; g.addEdge(i, j, w / 4.0, (bool)f); }
             else if (k == "R") { is >> i >> j; g.removeEdge(i, j); }
             else if (k == "WS") { is >> i >> j >> w; g.setEdgeWeight(i, j, w / 4.0); }
@@ -161,6 +155,17 @@ template <class G> void runWeighted(size_t n0, const std::vector<std::string> &o
             else if (k == "DD") g.removeDuplicateEdges();
             else throw std::logic_error("unknown op " + k);
             return 0; });
+}
+Z applyOp(DirectedWeightedGraph &g, const std::string &op) { return applyWeighted(g, op); }
+Z applyOp(UndirectedWeightedGraph &g, const std::string &op) { return applyWeighted(g, op); }
+template <class G> Segs obsOf(const G &g) { return observe(g); }
+#include "eqcase.hpp"
+template <class G> void runAny(size_t n0, const std::vector<std::string> &ops) {
+    G g(n0);
+    for (auto &op : ops) {
+        std::istringstream is(op); std::string k; long i = 0; is >> k;
+        if (k == "Q") { is >> i; Segs o = observe(g); o.insert(o.begin(), Obs{0}); o.push_back(query(g, (unsigned)i)); emit("I", o); continue; }
+        Z r = applyOp(g, op);
         Segs o = observe(g); o.insert(o.begin(), Obs{r}); o.push_back(Obs{}); emit("I", o);
     }
 }
@@ -168,13 +173,22 @@ int main() {
     std::string line;
     while (std::getline(std::cin, line)) {
         auto c = line.find(':'); if (c == std::string::npos) continue;
-        std::istringstream hd(line.substr(0, c)); std::string cls, lk; size_t n; hd >> cls >> lk >> n;
+        std::istringstream hd(line.substr(0, c)); std::string cls, lk; size_t n; hd >> cls;
+        bool eq = cls == "EQ"; if (eq) hd >> cls;
+        hd >> lk >> n;
         fputs(("CASE " + line + "\n").c_str(), stdout); fflush(stdout);
+        if (eq) {
+            std::string body = line.substr(c + 1); auto bar = body.find('|');
+            auto a = splitOps(body.substr(0, bar)), b = splitOps(bar == std::string::npos ? "" : body.substr(bar + 1));
+            if (cls == "DM") eqCase<DirectedMultigraph>(n, a, b); else if (cls == "UM") eqCase<UndirectedMultigraph>(n, a, b);
+            else if (cls == "DW") eqCase<DirectedWeightedGraph>(n, a, b); else if (cls == "UW") eqCase<UndirectedWeightedGraph>(n, a, b);
+            continue;
+        }
         auto ops = splitOps(line.substr(c + 1));
-        if (cls == "DM") runMulti<DirectedMultigraph, std::true_type>(n, ops);
-        else if (cls == "UM") runMulti<UndirectedMultigraph, std::false_type>(n, ops);
-        else if (cls == "DW") runWeighted<DirectedWeightedGraph>(n, ops);
-        else if (cls == "UW") runWeighted<UndirectedWeightedGraph>(n, ops);
+        if (cls == "DM") runAny<DirectedMultigraph>(n, ops);
+        else if (cls == "UM") runAny<UndirectedMultigraph>(n, ops);
+        else if (cls == "DW") runAny<DirectedWeightedGraph>(n, ops);
+        else if (cls == "UW") runAny<UndirectedWeightedGraph>(n, ops);
         else fputs("I unknown-class\n", stdout);
     }
     return 0;
